@@ -207,6 +207,53 @@ def cli_sample(c, repo, seed, nrandom, total, quick):
             c.report("`gobl %s` (exit %d) prints an error record without code and key/message: %s" %
                      (" ".join(args), p.returncode, " ".join(err.split())[:160]),
                      {"command": "bin/gobl " + " ".join(args), "stderr": err[:400]}, finding_id=match_finding(c, rec))
+    # flag values of the command line: every way of giving --set / --set-string / --set-file / -d / -t / -T / -k an empty,
+    # dotted, clashing or dangling value - a result, or an error record; never a crash
+    src = os.path.join(repo, "examples", "es", "out", "invoice-es-es.json")
+    if not os.path.exists(src):
+        import glob as _g
+        fs = sorted(_g.glob(os.path.join(repo, "examples", "*", "out", "*.json")))
+        src = fs[0] if fs else src
+    sets = ["=ES", "=", ".=x", "a.=x", "a..b=x", ".a=x", "doc.=x", "a=b=c", "a= ", " =x", "lines.5.i=2", "lines=x", "lines.x=1", "lines.0=1",
+            "lines.-1.i=1", "supplier.name.x=1", "a.b.c.d.e.f=1", "$schema=x", "doc=null", "currency=", "a=" + "9" * 400, "totals=~"]
+    flagsets = []
+    for v in sets:
+        for fl in ("--set", "--set-string"):
+            flagsets.append(("build", [fl, v]))
+        flagsets.append(("sign", ["--set", v]))
+    for v in ("=x", "a=/nonexistent/file.yaml", "=/nonexistent", ".=/dev/null", "a=/dev/null", "lines=" + src):
+        flagsets.append(("build", ["--set-file", v]))
+    for cmd in ("build", "sign"):
+        flagsets += [(cmd, ["-T", "/nonexistent/template.yaml"]), (cmd, ["-T", "/dev/null"]), (cmd, ["-t", ""]), (cmd, ["-t", "nosuch/type"]),
+                     (cmd, ["-t", "bill/invoice", "--set", "type=credit-note"])]
+    for d in ("", "{", "null", "[]", "7", '{"type":7}', '{"type":null}', '{"stamps":[null]}', '{"ext":{"":""}}', '{"issue_date":"x"}', '{"type":"credit-note","ext":null}'):
+        flagsets.append(("correct", ["-d", d]))
+    flagsets += [("correct", ["--credit", "--debit"]), ("sign", ["-k", ""]), ("sign", ["-k", "/dev/null"]), ("verify", ["-k", ""]), ("verify", ["-k", "/dev/null"]),
+                 ("validate", ["-t", "x"]), ("replicate", ["-t", ""])]
+    for cmd, fl in flagsets:
+        args = [cmd] + fl + [src]
+        try:
+            p = subprocess.run([gobl] + args, stdin=subprocess.DEVNULL, stdout=subprocess.PIPE, stderr=subprocess.PIPE, timeout=60)
+        except subprocess.TimeoutExpired:
+            c.report("`gobl %s` does not finish within 60 s" % " ".join(args[:-1]), {"command": "bin/gobl " + " ".join(args)})
+            continue
+        err = "\n".join(l for l in p.stderr.decode("utf-8", "replace").splitlines() if not l.startswith("WARNING conda"))
+        c.count("cli-flags", 1, tuple(args[:-1]))
+        if p.returncode not in (0, 1) or "panic:" in err or "goroutine " in err:
+            m = re.search(r"^(github\.com/invopop/gobl[^\s(]*)\(", err, re.M)
+            mm = re.search(r"^(panic: .*|fatal error: .*)$", err, re.M)
+            c.report("`gobl %s <example>` crashes (exit %d) in %s: %s" % (" ".join(args[:-1]), p.returncode, m.group(1) if m else "?", (mm.group(1) if mm else err[:120])[:160]),
+                     {"command": "bin/gobl " + " ".join(args), "stderr": err[:1500], "clause": "the command line returns a result or an error record; it never panics"})
+            continue
+        if p.returncode == 1:
+            try:
+                obj = json.loads(err)
+                ok = isinstance(obj, dict) and isinstance(obj.get("code"), int) and (obj.get("key") in DOCUMENTED if "key" in obj else bool(obj.get("message")))
+            except ValueError:
+                ok = False
+            if not ok:
+                c.report("`gobl %s <example>` (exit 1) prints an error record without code and key/message: %s" % (" ".join(args[:-1]), " ".join(err.split())[:160]),
+                         {"command": "bin/gobl " + " ".join(args), "stderr": err[:400]})
     return bad
 
 
